@@ -45,6 +45,8 @@ Replan == /\ pc = "replan"
 
 Next == Found \/ GoUp \/ GoDown \/ Fail \/ Replan
 Spec == Init /\ [][Next]_vars
+FairSpec == Spec /\ WF_vars(Next)
+Terminates == <>(pc = "done")        \* the search window shrinks with every probe
 
 (* ---- invariants ---- *)
 NeverWrong     == result # None => nf[result] = target
